@@ -6,6 +6,14 @@ BASE = "cd /repo && /venv/bin/python -m pytest -ra -q -p no:cacheprovider --time
 
 # pid -> (technique, level text, level note (undecided residue / trusted base), design ref)
 CHECKS = {
+ 'C06': ("string-template analysis: abstract interpretation of the read-code generators over the complete finite input space + per-language reader models (parse emitted text, compare fact sheets)",
+         "static analysis: the exact text of every program Darr can emit for Arrays (12 languages x 13 types x 2 byte orders x 1..3 (thorough: 1..4) dimensions x 3 path modes; extents and paths are opaque holes) is computed by interpreting the generators' AST; each program is parsed per language and checked for the path opened, read-only mode, type token, byte-order token, axis order, element count and well-formedness against the reader model; offered/withheld is compared with the two compatibility tables of docs/readcode.rst. The whole program space is covered; the tests look at none of it.",
+         "trusted base: the reader models (tmpl/langs.py), i.e. my transcription of each language's documented binary-read semantics; the Python-family snippets are parsed, not executed. Behaviour of the foreign interpreters is not decided.",
+         "DESIGN.md section 4 C06"),
+ 'C07': ("string-template analysis of the ragged composers (abstract interpretation with interception of the Array-generator calls) + accessor models (origin, inclusiveness, axis order, placeholders)",
+         "static analysis: every composed ragged program (9 languages x 13 value types x 7 index types x atom rank 0..3 x length classes x byte order x path mode) is computed exactly; sub-programs are checked with the C06 fact sheets for the index array (n, 2) and values array (N,)+atom; the accessor's start/end expressions, placeholder count/token/position, explicit empty branches, the example's k and assignment operator, withheld-iff-unreadable and well-formedness are checked against the language models.",
+         "trusted base: reader/accessor models (tmpl/langs.py, tmpl/ragged.py). Not decided: foreign interpreter behaviour; numeric adequacy of R's 2^31-1 cut-off.",
+         "DESIGN.md section 4 C07"),
  'C01': ('gate dominance + def-use/sibling rules over the creation path (AST/CFG/call graph); decision-table evaluation of the byte-order labelling',
          "static analysis of the disciplines creation depends on: supported-type gate dominates every reachable file-system effect; every written chunk is the first chunk or cast to its dtype; every chunk producer converts with the caller's dtype (sibling rule over all yields); length accounting pairs each write with the accumulator; descriptor fields come from the first chunk; the byte-order labelling is evaluated as an 8-cell decision table; fill defaults decided by `is None`.",
          'does not decide bit-pattern equality with the NumPy reference, chunklen-invariance or the fill-function index grid. Trusted: NumPy conversion semantics.',
